@@ -107,6 +107,9 @@ func c12Case(c *core.Ctx) {
 	}
 	run := &MRun{Model: model, N: 1, T: T, Sets: []PSet{ps}, Inputs: [][][]float64{in}, States: [][]float64{st0}}
 	c.Begin(run)
+	if c.R.Bool(0.1) {
+		HostileHistory(c, model, run.Sets)
+	}
 	tags := map[string]bool{}
 	tag := func(s string) {
 		tags[s] = true
